@@ -267,6 +267,24 @@ func (r *runner) childCtx(parent context.Context, kind string, variant int, run 
 			// a Java peer sends only TX_XID
 			delete(carried, constant.SeataXidKey)
 		}
+		// the spellings peers use for the attachment key: as sent, lower case (HTTP/2 based protocols), and the
+		// string-slice form the triple protocol hands to the provider
+		switch (variant / 16) % 4 {
+		case 1:
+			for _, k := range []string{constant.SeataXidKey, constant.XidKey} {
+				if v, ok := carried[k]; ok {
+					delete(carried, k)
+					carried[strings.ToLower(k)] = v
+				}
+			}
+		case 2:
+			for _, k := range []string{constant.SeataXidKey, constant.XidKey} {
+				if v, ok := carried[k]; ok {
+					delete(carried, k)
+					carried[strings.ToLower(k)] = []string{fmt.Sprint(v)}
+				}
+			}
+		}
 		inv2 := invocation.NewRPCInvocation("m", nil, carried)
 		f.Invoke(r.ctx, &stubInvoker{fn: func(ctx context.Context, inv protocol.Invocation) { run(ctx) }}, inv2)
 		return "fresh-dubbo"
